@@ -121,6 +121,7 @@ impl Trie {
         let mut q = Vec::new();
         q.push(cur);
         while let Some(c) = q.pop() {
+            #[cfg(feature = "verif")] crate::verif::tick(801);
             for child in c.children.iter() {
                 q.push(child);
             }
@@ -144,6 +145,7 @@ impl Display for Trie {
         q.push_back(root);
 
         while !q.is_empty() {
+            #[cfg(feature = "verif")] crate::verif::tick(802);
             for _ in 0..q.len() {
                 if let Some(node) = q.pop_front() {
                     for c in node.children.iter() {
